@@ -509,7 +509,7 @@ func runPlanS(def *PropDef, p *Plan, scratch string) *RunResult {
 	var bl klevdb.BlockingLog
 	if def.ID == "C18" {
 		var err error
-		bl, err = klevdb.WrapBlocking(r.L)
+		bl, err = wrapBlocking(r.L)
 		if err != nil {
 			res.Abort = "WrapBlocking: " + err.Error()
 			_ = r.L.Close()
